@@ -225,7 +225,7 @@ class Interp:
             except _Return as r:
                 ret = r.value
             if f.ret != EMPTY and ret is None:
-                raise AssertionError('reference model: value function %s completed without return' % f.name)
+                raise Undefined('fell off the end of value function %s' % f.name)
         finally:
             self.frames.pop()
         if self.checked and f.name.startswith('!') and contains_preempt(f.body):
